@@ -1,4 +1,5 @@
 """C01 - back-propagated gradients are the true derivatives (decided structural clauses only)."""
+import re as _re
 from ..core import Unestablished
 from ..hir import walk, strip, pretty, short, calls, pat_binds
 from .. import e1, e4, mac, macsig
@@ -50,6 +51,27 @@ BWD_FNS = ["convolution::Convolution::backward", "convolution::Convolution::conv
 def mac_stmts(c, fn, op="+="):
     ex = mac.extract(c, fn)
     return ex, [s for s in ex.stmts if s.op == op and len(s.reads) >= 1 and isinstance(s.target, Access)]
+
+
+def value_guards(ex, s):
+    """guards of the accumulation `s` that test tensor *values* (not indices) and are not of the harmless form `factor != 0` with the factor
+    one of the operands of the product accumulated by `s` (skipping a zero term).  A gradient accumulation skipped on any other data
+    condition drops terms of the derivative."""
+    bad = []
+    facs = set(str(a) for a in s.reads.values())
+    for g in s.guards:
+        gs = str(g)
+        accs = sorted(set(a for a in e1._all_atoms(g) if str(a).startswith("ACC")))
+        if not accs:
+            if "?" in gs:
+                bad.append(gs)
+            continue
+        reads = {**getattr(ex, "guard_reads", {}), **s.reads}
+        what = [str(reads.get(a)) for a in accs]
+        if len(accs) == 1 and gs == "ne0(%s)" % accs[0] and what[0] in facs:
+            continue
+        bad.append(gs.replace(accs[0], what[0]) if len(accs) == 1 else gs)
+    return bad
 
 
 def r1(ctx):
@@ -107,6 +129,10 @@ def r1(ctx):
         fdom = sorted((fren.get("%s#%d" % (nm, hid), nm), str(en)) for (hid, nm, st, en, step) in f.loops)
         bdom = sorted((ren.get("%s#%d" % (nm, hid), nm), str(en).replace("input", "x")) for (hid, nm, st, en, step) in s.loops)
         okd = [d[0] for d in fdom] == [d[0] for d in bdom]
+        vg = value_guards(bex, s)
+        ctx.check("R01.1", inst + ":no-data-dependent-skip", not vg, "skipped-on-data-condition:" + _re.sub(r"#\d+", "", ";".join(vg))[:100], where,
+                  "the accumulation is skipped only on index conditions (or on a zero factor of its own product)",
+                  "Deconvolution::backward skips the %s accumulation under %s: terms of the derivative are dropped for those inputs" % (kind, vg))
         ctx.check("R01.1", inst, ok and okd and s.op == "+=", "guards-or-domain-differ-from-forward", where,
                   "same index relation, guards and domain as forward: %s" % macsig.sig_str(sig),
                   "guards %s vs forward %s; domain %s vs %s" % (bg, fg, bdom, fdom))
@@ -149,6 +175,10 @@ def r2(ctx):
               "kernel gradient uses the forward relation %s" % macsig.sig_str(fsig),
               "convolve_gradients computes dK with %s but the forward pass is %s: stride and dilation change roles, so the kernel gradient is "
               "only correct for stride = dilation = 1" % (macsig.sig_str(gsig), macsig.sig_str(fsig)))
+    vg = value_guards(gex, g)
+    ctx.check("R01.2", "conv-kernel-gradient:no-data-dependent-skip", not vg, "skipped-on-data-condition:" + _re.sub(r"#\d+", "", ";".join(vg))[:100], c.loc(gf, g.node),
+              "the accumulation is skipped only on index conditions (or on a zero factor of its own product)",
+              "convolve_gradients skips the accumulation under %s: terms of the derivative are dropped for those inputs" % vg)
     # call site in backward: (a, b) = (padded input, delta); padded extent must be the forward one
     call = [x for x in walk(bf["body"]) if x.get("k") == "mcall" and x["callee"] == "convolution::Convolution::convolve_gradients"]
     if len(call) != 1:
@@ -336,10 +366,28 @@ def r4(ctx):
                   "output = pre[idx]")
         ctx.check("R01.4", short_name + ":idx", not res.get("unclassified"), "walk-paths:" + short(next((x[1] for x in res.get("unclassified", [])), ""), 60), wloc,
                   "every step dispatches on the layer at idx = len - i - 1")
+        if short_name == "Feedback":
+            # the block's input gradient: the most recently appended entry of the gradient list after the walk
+            r0 = e6.strip_upd(comps[0]) if len(comps) == 3 else None
+            while r0 is not None and (e6.is_call(r0, "clone", 1) or e6.is_call(r0, "to_owned", 1)):
+                r0 = (e6.is_call(r0, "clone", 1) or e6.is_call(r0, "to_owned", 1))[0]
+            okret = False
+            if r0 is not None and g_n is not None:
+                u0 = e6.is_call(r0, "unwrap", 1) or e6.is_call(r0, "expect")
+                lst = (e6.is_call(u0[0], "last", 1) or e6.is_call(u0[0], "pop", 1)) if u0 else None
+                if lst and e6.root_name(lst[0]) == g_n and isinstance(lst[0], tuple) and lst[0][0] == "loopout":
+                    okret = True
+                elif isinstance(r0, tuple) and r0[0] == "idx" and e6.root_name(r0[1]) == g_n and isinstance(r0[1], tuple) and r0[1][0] == "loopout":
+                    LENG = ("call", "std::vec::Vec::<T, A>::len", (r0[1],))
+                    okret = e6.lin(("bin", "Sub", r0[2], ("lit", "0"))) == e6.lin(("bin", "Sub", LENG, ("lit", "1")))
+            ctx.check("R01.4", "Feedback:returns-last-gradient", okret, "returned-input-gradient:" + _re.sub(r"#\w+", "", short(e6.show(r0, 3), 70)) if r0 is not None else "returned-input-gradient:?", where,
+                      "the block returns the gradient appended last (wrt. the block's input)",
+                      "Feedback::backward returns %s as the gradient wrt. its input; after walking all (repeated) layers back the input gradient "
+                      "is the entry appended last" % (e6.show(r0, 3)[:120] if r0 is not None else "?"))
         ctx.check("R01.4", short_name + ":result-routing", bool(routing) and all(x[0] for x in routing), "result-components-routed-wrongly:" + short(next((x[1] for x in routing if not x[0]), ""), 80), wloc,
                   "(dX, dW, db) -> gradients / weight / bias lists")
     ctx.guard("R01.4", "record-layout", forward_record_layout, ctx, "R01.4")
-    ctx.floor("R01.4", 18 + 3, "two walks: walk form, idx, input, output, arms, routing; record layout of Network::forward")
+    ctx.floor("R01.4", 18 + 3 + 1, "two walks: walk form, idx, input, output, arms, routing; record layout of Network::forward")
 
 
 def forward_record_layout(ctx, rule):
